@@ -118,7 +118,8 @@ Inductive ev :=
 | EBegin (alias : str) (args : list pyval) (kwargs : list (str * pyval))   (* a call site calls an intercepted function *)
 | EBody (alias : str) (args : list pyval) (kwargs : list (str * pyval))    (* a wrapped body starts executing *)
 | ECall (alias : str) (o : outcome)                                        (* the call returns o to its caller *)
-| ESent (alias : str) (args : list pyval) (kwargs : list (str * pyval))    (* an output decorator intercepts this call *)
+| ESent (alias : str) (d : option datum)                                   (* an output decorator intercepts this call; d = what it captures (None: the handler failed) *)
+| EAnswer (alias : str) (o : outcome)                                      (* an intercepting decorator hands o to the caller (ghost: specification only) *)
 | EWrite (k : str) (d : datum)                                             (* active_recording[k] = d *)
 | EAbort                                                                   (* tape_cassette.abort_recording(active) *)
 | EPbOut (k : str) (d : datum).                                            (* playback_outputs.append(Output(k, d)) *)
@@ -131,9 +132,10 @@ Definition write_of (e : ev) : list (str * datum) := match e with EWrite k d => 
 Definition writes_of (l : list ev) : list (str * datum) := flat_map write_of l.
 Definition pbout_of (e : ev) : list (str * datum) := match e with EPbOut k d => [(k, d)] | _ => [] end.
 Definition pbouts_of (l : list ev) : list (str * datum) := flat_map pbout_of l.
-Definition sent_one (e : ev) : list (str * (list pyval * list (str * pyval))) :=
-  match e with ESent a x kw => [(a, (x, kw))] | _ => [] end.
-Definition sent_of (l : list ev) : list (str * (list pyval * list (str * pyval))) := flat_map sent_one l.
+Definition sent_one (e : ev) : list (str * option datum) := match e with ESent a d => [(a, d)] | _ => [] end.
+Definition sent_of (l : list ev) : list (str * option datum) := flat_map sent_one l.
+Definition answer_of (e : ev) : list (str * outcome) := match e with EAnswer a o => [(a, o)] | _ => [] end.
+Definition answers_of (l : list ev) : list (str * outcome) := flat_map answer_of l.
 Definition is_abort (e : ev) : bool := match e with EAbort => true | _ => false end.
 Definition aborts_of (l : list ev) : nat := length (filter is_abort l).
 
